@@ -20,6 +20,8 @@ import (
 
 	"github.com/buildbarn/bb-storage/pkg/blobstore/local"
 	"github.com/buildbarn/bb-storage/pkg/digest"
+	"google.golang.org/grpc/codes"
+	"google.golang.org/grpc/status"
 
 	"verif/lib/asm"
 	"verif/lib/gen"
@@ -138,6 +140,11 @@ func history(ctx context.Context, w *run.Worker, c *run.Case, concTouch bool) {
 			w.Count("boundary_probes", 1)
 		}
 		if err != nil {
+			if strings.Contains(err.Error(), "Failed to refresh blob") && (status.Code(err) == codes.Unavailable || strings.Contains(err.Error(), "already been released")) {
+				w.Count("refresh_refused_no_space", 1)
+				o.touch = -1
+				return
+			}
 			if !asm.IsNotFound(err) {
 				c.Violation("localstore.Get:unexpected-error-sequential", "Get failed with %v", err)
 				return
@@ -185,6 +192,15 @@ func history(ctx context.Context, w *run.Worker, c *run.Case, concTouch bool) {
 		aRet := allocs()
 		checkTaint()
 		if err != nil {
+			if strings.Contains(err.Error(), "Failed to refresh blob") && (status.Code(err) == codes.Unavailable || strings.Contains(err.Error(), "already been released")) {
+				// refresh refused for lack of free blocks (tiny geometry): no
+				// verdict from this call; forget the touches of the digests involved
+				w.Count("refresh_refused_no_space", 1)
+				for _, i := range idx {
+					objs[i].touch = -1
+				}
+				return
+			}
 			c.Violation("localstore.FindMissing:unexpected-error-sequential", "FindMissing failed with %v", err)
 			return
 		}
